@@ -318,7 +318,7 @@ votes of round `round` (the invariant of the vote store, `addVote_store_round`),
 returns, compressed, is accepted by `ValidateBlockCert` for the block with the returned hash at height `round`
 on the parent the counter was given — with the same committee (same seed, round, step) and the threshold for
 `final = (step = Final)`, as all call sites pass it.  On the fast-sync path this needs the zero address not to be
-an approved committee member. -/
+an approved committee member.  The emitted list is never empty. -/
 theorem countVotes_emits_valid (useCache : Bool) (iterOrder : RoundVotes σ → RoundVotes σ)
     (hperm : ∀ l, (iterOrder l).Perm l)
     (v : View) (perm : List Nat) (step parentHash round : Nat) (polls : List (List (Vote σ)))
@@ -327,9 +327,9 @@ theorem countVotes_emits_valid (useCache : Bool) (iterOrder : RoundVotes σ → 
             svv.approved.contains 0 = false)
     (h : Nat) (list list' : List (Vote σ))
     (hres : countVotes recover iterOrder (getOnlineValidators v perm (committeeSize v.sorted.length (isFinal step)))
-              (votesThreshold v.sorted.length (isFinal step)) step parentHash polls = some (h, list))
+              (votesThreshold v.sorted.length (isFinal step)) step parentHash polls = .found h list)
     (hl : list'.Perm list) :
-    validateBlockCert recover useCache v perm (compress list') parentHash h round = .ok := by
+    validateBlockCert recover useCache v perm (compress list') parentHash h round = .ok ∧ list ≠ [] := by
   cases hsv : getOnlineValidators v perm (committeeSize v.sorted.length (isFinal step)) with
   | none => rw [hsv] at hres; simp [countVotes] at hres
   | some svv =>
@@ -337,23 +337,39 @@ theorem countVotes_emits_valid (useCache : Bool) (iterOrder : RoundVotes σ → 
     simp only [countVotes] at hres
     have hbb : BBInv recover (fun a => svv.approved.contains a) step parentHash (fun x => x.round = round)
         ([] : ByBlock σ) := by intro p hp; cases hp
-    have hem := countLoop_spec recover (fun a => svv.approved.contains a) iterOrder step parentHash
+    obtain ⟨hem, hne⟩ := (countLoop_spec recover (fun a => svv.approved.contains a) iterOrder step parentHash
       (required svv (votesThreshold v.sorted.length (isFinal step))) (fun x => x.round = round) hperm polls hround
-      [] hbb h list hres
+      [] hbb).1 h list hres
+    refine ⟨?_, hne⟩
     have hem' := emitted_perm recover hl hem
-    have hstep : (compress list').step = step ∨ list' = [] := by
-      cases list' with
-      | nil => exact Or.inr rfl
-      | cons x t => exact Or.inl (hem'.1 x List.mem_cons_self).2.2.1
     have hval := emitted_validates recover useCache svv (votesThreshold v.sorted.length (isFinal step)) step
       parentHash round h list' hem' (fun hu => h0 hu svv hsv)
-    rcases hstep with hs | hs
-    · simp only [validateBlockCert, hs, hsv]; exact hval
-    · -- the counter never returns an empty list (`visit` answers right after adding a vote)
-      subst hs
-      have hlen : list = [] := List.length_eq_zero_iff.mp (by rw [← hl.length_eq]; rfl)
-      exact absurd hlen (countLoop_nonempty recover (fun a => svv.approved.contains a) iterOrder step parentHash
-        (required svv (votesThreshold v.sorted.length (isFinal step))) hperm polls [] h list hres)
+    cases hl' : list' with
+    | nil =>
+      exfalso; apply hne
+      exact List.length_eq_zero_iff.mp (by rw [← hl.length_eq, hl']; rfl)
+    | cons x t =>
+      have hs : (compress list').step = step := by
+        rw [hl']; exact (hem'.1 x (by rw [hl']; exact List.mem_cons_self)).2.2.1
+      rw [hl'] at hs hval
+      simp only [validateBlockCert, hs, hsv]; exact hval
+
+/-- the only panic site of the counter (`make(…, 0, necessaryVotesCount)` with a negative capacity) needs a negative
+`required` *and* a vote of an approved voter -/
+theorem countVotes_panic_only_if (iterOrder : RoundVotes σ → RoundVotes σ)
+    (hperm : ∀ l, (iterOrder l).Perm l) (svv : StepValidators) (thr step parentHash : Nat)
+    (polls : List (List (Vote σ)))
+    (hres : countVotes recover iterOrder (some svv) thr step parentHash polls = .panic) :
+    required svv thr < 0 ∧ svv.approved ≠ [] := by
+  simp only [countVotes] at hres
+  have hbb : BBInv recover (fun a => svv.approved.contains a) step parentHash (fun _ => True)
+      ([] : ByBlock σ) := by intro p hp; cases hp
+  obtain ⟨h1, a, ha⟩ := (countLoop_spec recover (fun a => svv.approved.contains a) iterOrder step parentHash
+    (required svv thr) (fun _ => True) hperm polls (fun _ _ _ _ => trivial) [] hbb).2 hres
+  refine ⟨h1, ?_⟩
+  intro hnil
+  rw [hnil] at ha
+  simp at ha
 
 end Count
 
@@ -486,6 +502,40 @@ theorem original_card (v : View) (perm : List Nat) (limit : Nat) (sv : StepValid
   simp only [distinctCount] at this
   rw [this, hdrawn.2]
 
+/-- **`block_cert_sound`** — `cert_sound` at the level of `ValidateBlockCert(prevBlock, block, cert, cache, …)`
+with the committee spelled out: an accepted certificate holds `required` distinct voters, each recovered from one
+of its signatures under the rebuilt header, and each of them is the god address (nobody online) or the voter
+(`voterOf`: the identity itself or its pool) of an approved validator `a` drawn from the view's validator list for
+(parent seed, block height, certificate step). -/
+theorem block_cert_sound {σ : Type} (recover : σ → Msg → Option Nat) (useCache : Bool) (v : View) (perm : List Nat)
+    (c : BlockCert σ) (prevHash blockHash height : Nat) (hlaw : PermLaw perm v.sorted.length)
+    (h : validateBlockCert recover useCache v perm c prevHash blockHash height = .ok) :
+    ∃ svv, getOnlineValidators v perm (committeeSize v.sorted.length (isFinal c.step)) = some svv ∧
+      ∃ vs : List Nat, vs.Nodup ∧ required svv (votesThreshold v.sorted.length (isFinal c.step)) ≤ (vs.length : Int) ∧
+        ∀ x ∈ vs,
+          (∃ s ∈ c.sigs, countedB recover useCache c prevHash s = true ∧
+              (recover s.sig (certMsg c prevHash s)).getD 0 = x) ∧
+          ((v.online.length = 0 ∧ x = v.god) ∨
+           (∃ a ∈ svv.original, a ∈ v.sorted ∧ voterOf v a = x ∧ approvedOf v a = true)) := by
+  simp only [validateBlockCert] at h
+  obtain ⟨svv, hsv, vs, hnd, hq, hvs, _, _, _⟩ := cert_sound recover useCache _ _ c prevHash blockHash height h
+  refine ⟨svv, hsv, vs, hnd, hq, ?_⟩
+  intro x hx
+  obtain ⟨hap, hs⟩ := hvs x hx
+  refine ⟨hs, ?_⟩
+  have hxa : x ∈ svv.approved := by simpa using hap
+  by_cases hon : v.online.length = 0
+  · left
+    rw [committee_god_mode v perm _ hon] at hsv
+    simp only [Option.some.injEq] at hsv
+    subst hsv
+    simp only [List.mem_singleton] at hxa
+    exact ⟨hon, hxa⟩
+  · right
+    obtain ⟨h1, _, _, h4, _⟩ := committee_subset v perm _ svv hlaw hon hsv
+    obtain ⟨a, ha, e1, e2⟩ := h4 x hxa
+    exact ⟨a, ha, h1 a ha, e1, e2⟩
+
 /-! ## `required` can be zero or negative (finding F11: documented, not a violation of the statement) -/
 
 /-- with `required ≤ 0` the certificate without signatures passes, whatever round and hash it names: the round /
@@ -588,6 +638,87 @@ theorem validate_never_panics {σ : Type} (recover : σ → Msg → Option Nat) 
       obtain ⟨e, he, hcls⟩ := certLoop_err recover _ useCache c prevHash blockHash height c.sigs [] hex
       rw [he]
       rcases hcls with rfl | rfl | rfl <;> simp
+
+/-! ## `required` is non-negative whenever somebody is approved, so the vote counter never panics -/
+
+theorem subtrahend_step : ∀ a : Fin 100, subtrahend a.val ≤ subtrahend (a.val + 1) := by decide
+
+theorem subtrahend_mono {a b : Nat} (hab : a ≤ b) (hb : b ≤ 100) : subtrahend a ≤ subtrahend b := by
+  induction b with
+  | zero =>
+    have : a = 0 := by omega
+    subst this; exact Nat.le_refl _
+  | succ n ih =>
+    rcases Nat.lt_or_eq_of_le hab with h | h
+    · have h1 := ih (by omega) (by omega)
+      have h2 := subtrahend_step ⟨n, by omega⟩
+      simp only [] at h2
+      omega
+    · subst h; exact Nat.le_refl _
+
+theorem committeeSize_le_max (cnt : Nat) (final : Bool) (h : 8 < cnt) : committeeSize cnt final ≤ 100 := by
+  have h8 : ¬ cnt ≤ 8 := by omega
+  simp only [committeeSize, h8, if_false, maxCommitteeSize]
+  split <;> split <;> omega
+
+/-- with the protocol's formulas, `d` non-approved members out of a committee of `committeeSize cnt final`, at least
+one approved: the subtrahend does not exceed the threshold -/
+theorem subtrahend_le_threshold (cnt : Nat) (final : Bool) (d : Nat) (hd : d < committeeSize cnt final) :
+    subtrahend d ≤ votesThreshold cnt final := by
+  by_cases h8 : cnt ≤ 8
+  · have key : ∀ c : Fin 9, ∀ f : Bool, ∀ x : Fin 9, x.val < committeeSize c.val f →
+        subtrahend x.val ≤ votesThreshold c.val f := by decide
+    have hsz : committeeSize cnt final = cnt := by simp [committeeSize, h8]
+    exact key ⟨cnt, by omega⟩ final ⟨d, by omega⟩ hd
+  · have hmax := committeeSize_le_max cnt final (by omega)
+    have hthr : votesThreshold cnt final = subtrahend (committeeSize cnt final) := by
+      have h1 : ¬ cnt ≤ 1 := by omega
+      have h3 : ¬ cnt ≤ 3 := by omega
+      have h5 : ¬ cnt ≤ 5 := by omega
+      have h7 : ¬ cnt ≤ 7 := by omega
+      have h8' : ¬ cnt = 8 := by omega
+      simp [votesThreshold, subtrahend, h1, h3, h5, h7, h8']
+    rw [hthr]
+    exact subtrahend_mono (by omega) hmax
+
+/-- **`required_nonneg_of_approved`**: for the committee the code draws, `required ≥ 0` as soon as one voter is
+approved (`required` is `−1` only for seven validators that are all discriminated). -/
+theorem required_nonneg_of_approved (v : View) (perm : List Nat) (final : Bool) (svv : StepValidators)
+    (hs : StrictDesc v.sorted) (hlaw : PermLaw perm v.sorted.length)
+    (h : getOnlineValidators v perm (committeeSize v.sorted.length final) = some svv) (hne : svv.approved ≠ []) :
+    0 ≤ required svv (votesThreshold v.sorted.length final) := by
+  by_cases hon : v.online.length = 0
+  · rw [committee_god_mode v perm _ hon] at h
+    simp only [Option.some.injEq] at h
+    subst h
+    have h0 : subtrahend 0 = 0 := by decide
+    simp only [required, List.length_cons, List.length_nil, Nat.sub_self, h0]
+    omega
+  · obtain ⟨hcard, _⟩ := original_card v perm _ svv hs hlaw hon h
+    have hle := (committee_subset v perm _ svv hlaw hon h).2.2.2.2
+    have hpos : 0 < svv.approved.length := by
+      cases ha : svv.approved with
+      | nil => exact absurd ha hne
+      | cons _ _ => simp
+    have := subtrahend_le_threshold v.sorted.length final (svv.original.length - svv.approved.length) (by omega)
+    simp only [required]
+    omega
+
+/-- **`countVotes_never_panics`**: with the committee and threshold the call sites pass, the vote counter never
+reaches `make` with a negative capacity. -/
+theorem countVotes_never_panics {σ : Type} (recover : σ → Msg → Option Nat) (iterOrder : RoundVotes σ → RoundVotes σ)
+    (hperm : ∀ l, (iterOrder l).Perm l) (v : View) (perm : List Nat) (hs : StrictDesc v.sorted)
+    (hlaw : PermLaw perm v.sorted.length) (step parentHash : Nat) (polls : List (List (Vote σ))) :
+    countVotes recover iterOrder (getOnlineValidators v perm (committeeSize v.sorted.length (isFinal step)))
+      (votesThreshold v.sorted.length (isFinal step)) step parentHash polls ≠ .panic := by
+  intro hres
+  cases hsv : getOnlineValidators v perm (committeeSize v.sorted.length (isFinal step)) with
+  | none => rw [hsv] at hres; simp [countVotes] at hres
+  | some svv =>
+    rw [hsv] at hres
+    obtain ⟨hneg, hne⟩ := countVotes_panic_only_if recover iterOrder hperm svv _ step parentHash polls hres
+    have := required_nonneg_of_approved v perm (isFinal step) svv hs hlaw hsv hne
+    omega
 
 /-! ## Vote admission keeps the store's round discipline -/
 
@@ -717,18 +848,18 @@ def vote (k hsh : Nat) : Vote (Nat × Msg) :=
   { round := 7, step := 1, parent := 11, voted := hsh, off := false, upg := 0,
     sig := sign k { round := 7, step := 1, parent := 11, voted := hsh, off := false, upg := 0 } }
 
+/-- found hash and the validator's verdict on the compressed certificate (fast-sync path) -/
+def _root_.IdenaModel.Cert.CountRes.verdict (r : CountRes (Nat × Msg)) : Option (Nat × Verdict) :=
+  match r with
+  | .found h l => some (h, validateBlockCert recover true (load 9 reg4) [] (compress l) 11 h 7)
+  | _ => none
+
 -- `countVotes_emits_valid` is not vacuous: with equivocation, an outsider and a duplicate in the map, the counter
--- finds a certificate (in the second poll), and it validates
+-- finds a certificate for hash 22 (in the second poll), and it validates
 example : (countVotes recover id (getOnlineValidators (load 9 reg4) [] (committeeSize 4 false))
     (votesThreshold 4 false) 1 11
-    [[vote 1 22, vote 2 33, vote 8 22], [vote 1 22, vote 2 33, vote 8 22, vote 2 22, vote 1 22, vote 3 22]]).isSome
-    = true := by decide
-example : ((countVotes recover id (getOnlineValidators (load 9 reg4) [] (committeeSize 4 false))
-    (votesThreshold 4 false) 1 11
-    [[vote 1 22, vote 2 33, vote 8 22], [vote 1 22, vote 2 33, vote 8 22, vote 2 22, vote 1 22, vote 3 22]]).map
-    (fun r => (r.1, validateBlockCert recover true (load 9 reg4) [] (compress r.2) 11 r.1 7))) = some (22, .ok) := by
-  decide
-
+    [[vote 1 22, vote 2 33, vote 8 22], [vote 1 22, vote 2 33, vote 8 22, vote 2 22, vote 1 22, vote 3 22]]).verdict
+    = some (22, .ok) := by decide
 -- `original_card` / `committee_subset`: a drawn committee (10 validators, limit 3, some permutation)
 def reg10 : List Ident := (List.range 10).map (fun i => ⟨i + 1, true, true, i % 3 == 0, none⟩)
 example : ((getOnlineValidators (load 9 reg10) [4, 9, 0, 2, 1, 3, 5, 6, 7, 8] (committeeSize 10 false)).map
